@@ -10,6 +10,9 @@ set_option linter.unusedVariables false
 
 namespace GojaModel.C14
 
+theorem Frame.dropsErrors_of_not_swallows {f : Frame} (h : f.swallows = false) : f.dropsErrors = false := by
+  cases f <;> simp_all [Frame.swallows, Frame.dropsErrors]
+
 /-- A JS value that is a GoError whose `value` is `e`. -/
 def JsVal.wrapsGo (w : JsVal) (e : GoErr) : Prop := w.goErrValue = some e ∧ w.isGoErrorInstance = true
 
@@ -37,7 +40,8 @@ theorem applyFrame_carriesGo (idx : Nat) (f : Frame) (cjs : Bool) {e : GoErr} {f
     | other n => simp [CarriesGo] at hc
     | goErr e' =>
       obtain ⟨rfl, hu⟩ := hc
-      obtain ⟨x', o', h, _, hx⟩ := applyFrame_unclassifiable idx f cjs (x := .goErr e') rfl o
+      obtain ⟨x', o', h, _, hx⟩ := applyFrame_unclassifiable idx f cjs (x := .goErr e') rfl
+        (Frame.dropsErrors_of_not_swallows hsw) o
       rw [h, hx hrw]; exact ⟨rfl, hu⟩
     | val w =>
       have hw : w.wrapsGo e := hc
@@ -50,6 +54,7 @@ theorem applyFrame_carriesGo (idx : Nat) (f : Frame) (cjs : Bool) {e : GoErr} {f
             JsKind.hasFinally, JsKind.rethrows, CarriesGo, JsVal.wrapsGo, JsVal.goErrValue, JsVal.isGoErrorInstance,
             JsVal.key, JsKey.isGoErrorInstance]
       | ja => simp [Frame.swallows] at hsw
+      | fcs => simp [Frame.swallows] at hsw
       | rfw => simp [Frame.rewraps] at hrw
       | _ =>
         cases cjs <;>
@@ -70,6 +75,7 @@ theorem applyFrame_carriesGo (idx : Nat) (f : Frame) (cjs : Bool) {e : GoErr} {f
             JsKind.hasFinally, JsKind.rethrows, CarriesGo, JsVal.wrapsGo, JsVal.goErrValue, JsVal.isGoErrorInstance,
             JsVal.key, JsKey.isGoErrorInstance]
       | ja => simp [Frame.swallows] at hsw
+      | fcs => simp [Frame.swallows] at hsw
       | rfw => simp [Frame.rewraps] at hrw
       | _ =>
         cases cjs <;>
@@ -445,6 +451,7 @@ theorem applyFrame_exact (idx : Nat) (f : Frame) (cjs : Bool) {ex0 : Exc} {fl : 
   | fcv => simp [Frame.rethrows] at hr
   | rfw => simp [Frame.rewraps] at hrw
   | ja => simp [Frame.swallows] at hsw
+  | fcs => simp [Frame.swallows] at hsw
   | _ =>
     cases cjs <;>
       simp [applyFrame, callable, invoke, jsCall, runWrapped, vmTry, handleThrow, handleThrowLoop,
